@@ -15,7 +15,8 @@ extra = [a for a in sys.argv[4:] if a != wt]
 patch = os.path.join(src, "patch_%s.diff" % k)
 demo = os.path.join(src, "demo_%s.py" % k)
 env = dict(os.environ, PYTHONPATH=wt + "/src")
-out = {"property": prop, "k": k}
+tag = os.environ.get("SEED_TAG", prop)
+out = {"property": prop, "k": k, "tag": tag}
 
 
 def sh(*a, **kw):
@@ -49,7 +50,7 @@ out["demo_without"], out["demo_with"], out["files"] = rc0, rc1, files
 ok_demo = rc0 == 0 and rc1 != 0
 # pinned suite
 t0 = time.time()
-xml = "/tmp/junit_%s_%s.xml" % (prop, k)
+xml = "/tmp/junit_%s_%s.xml" % (tag, k)
 subprocess.run(["/venv/bin/python", "-m", "pytest", "-q", "-p", "no:cacheprovider", "--timeout=900", "--continue-on-collection-errors",
                 "--junitxml=" + xml], env=env, cwd=wt, capture_output=True, text=True)
 import xml.etree.ElementTree as ET
@@ -67,8 +68,8 @@ out["suite_lost"] = lost[:5]
 out["suite_s"] = round(time.time() - t0)
 # the check
 t0 = time.time()
-ev = "/tmp/ev_seed_%s_%s" % (prop, k)
-log = "/tmp/proc_seed_%s_%s.log" % (prop, k)
+ev = "/tmp/ev_seed_%s_%s" % (tag, k)
+log = "/tmp/proc_seed_%s_%s.log" % (tag, k)
 import fcntl
 lock = open("/tmp/seed3/check.lock", "w")
 fcntl.flock(lock, fcntl.LOCK_EX)          # one check (16 processes) at a time
@@ -81,9 +82,9 @@ out["check_s"] = round(time.time() - t0)
 sh("git", "-C", wt, "checkout", "--", ".")
 lines = [l.rstrip()[:300] for l in open(log) if l.startswith(("VIOLATION", "KNOWN-FINDING", "INCONCLUSIVE", "HARNESS", "  obligation", "  REPRODUCED"))][:8]
 print("== %s-%s demo(without=%d, with=%d)%s suite_lost=%d check_exit=%d (%ds) files=%s" % (
-    prop, k, rc0, rc1, "" if ok_demo else " DEMO-NOT-DISCRIMINATING", len(lost), p.returncode, out["check_s"], ",".join(files)))
+    tag, k, rc0, rc1, "" if ok_demo else " DEMO-NOT-DISCRIMINATING", len(lost), p.returncode, out["check_s"], ",".join(files)))
 for l in lost[:5]:
     print("   LOST", l)
 for l in lines:
     print("   ", l)
-json.dump(out, open("/tmp/proc_seed_%s_%s.json" % (prop, k), "w"))
+json.dump(out, open("/tmp/proc_seed_%s_%s.json" % (tag, k), "w"))
